@@ -17,6 +17,15 @@ After EVERY write operation (add_*, update_*, rejected update, install_adf*):
   rejected         an invalid update (wrong shapes, charge > Z, non-Element species, negative metastable, ragged / missing
                    arrays) leaves every stored key readable and unchanged; keys that are part of the rejected call may
                    hold either their old or their new content (the statement does not demand atomicity).
+  rewrite          (generated on top of the above) overwrites whose data differ from the stored data in exactly ONE component
+                   (one axis / the table / one element / one element by one ulp / the wavelength), through add_*, update_*
+                   and re-installed ADF files with one changed number: last write must still win bit for bit;
+  one call, n keys several keys written by one update_* dictionary (up to 9, partly sharing grids and differing in one
+                   component) are each read back against their own arrays; keys written by one install_* call (multi-block
+                   ADF15 incl. several CHEXC blocks on one grid, multi-charge ADF11, multi-block ADF12) must each carry
+                   their own block - judged convention-free by order relations (see _install_cross_key);
+  hostile spelling transition levels whose lower-cased string forms differ ('03' / ' 3' / '+3' / '3.0' / 2.5 / '3_0' vs '3')
+                   are different keys: after writing one, the others must raise RuntimeError or keep their own data.
 install_adf* front-ends are fed synthetic ADF files (vf/adf_c06.py); the arguments they hand to repository.update_* are
 recorded by an argument recorder and those exact arrays must be read back from the repository_path given to install_*.
 Every front-end (directly and through install_files) is driven in three modes: file found in adas_path (download=False);
@@ -77,7 +86,8 @@ THOROUGH = dict(cases=15000, workers=16, timecap=600)
 REQUIRED = {"readback": 1000, "others_untouched": 8000, "never_written": 8000, "alias_read": 2000,
             "audit_write_open": 1000, "audit_mkdir": 1000, "home_clean": 40, "rejected_update": 60,
             "rejected_intact": 600, "install_call": 40, "install_readback": 60, "install_download_fetch": 25,
-            "install_download_cache_hit": 15}
+            "install_download_cache_hit": 15, "rewrite_one_component": 150, "hostile_spelling_probe": 1500,
+            "install_cross_key_distinct": 150}
 
 # ----------------------------------------------------------------------------------------------------------------
 # independent species table: variable name in cherab.core.atomic.elements -> (symbol, Z)
@@ -217,7 +227,10 @@ _CLASS_P = [0.2, 0.12, 0.1, 0.12, 0.1, 0.12, 0.14, 0.1]
 _TRANS_POOL = [[3, 2], ["3", "2"], [2, 1], [4, 2], ["4", "2"], [8, 7], [10, 9],
                ["2s1 2P", "1S"], ["2s1 2p", "1s"], ["2S1 2P", "1s"],
                ["2s1 3p1 3P4.0", "2s1 3s1 3S1.0"], ["2S1 3P1 3P4.0", "2S1 3S1 3S1.0"],
-               ["1s2 2s2 3d1 2D2.5", "1s2 2s2 2p1 2P0.5"], ["n=3", "n=2"], ["N=3", "N=2"], [3, "2"], ["3", 2], [5, 4]]
+               ["1s2 2s2 3d1 2D2.5", "1s2 2s2 2p1 2P0.5"], ["n=3", "n=2"], ["N=3", "N=2"], [3, "2"], ["3", 2], [5, 4],
+               # hostile spellings: different lower-cased string forms are DIFFERENT keys (and equal forms alias)
+               ["03", "02"], [" 3", "2"], ["+3", "+2"], ["3 ", "2 "], ["3.0", "2.0"], [2.5, 1.5], ["2.5", "1.5"],
+               [3.5, 2], ["3_0", "2"], ["30", "2"], ["3e0", "2"], ["0x3", "2"], ["\u0663", "2"]]
 _VCLASSES = ["normal", "denormal", "huge", "negzero", "ints", "maxfloat"]
 
 
@@ -296,6 +309,86 @@ def _data(rng, kind, vclass, big=False):
     for r in ("eref", "nref", "tref", "sref"):
         d[r] = _vals(rng, 1, vclass)[0]
     return d
+
+
+def _mutate_one(rng, kind, data):
+    """Copy of `data` that differs from it in exactly ONE component: a whole field (axis or table) replaced by new
+    values of the same shape, one element replaced, or one element moved by one ulp.  -> (new data, description)."""
+    new = copy.deepcopy(data)
+    f, dim = FIELDS[kind][int(rng.integers(len(FIELDS[kind])))]
+    a = np.array(new[f], dtype=np.float64)
+    mode = _pick(rng, ["field", "element", "ulp"])
+    if dim == 0:
+        mode = "ulp" if mode == "ulp" else "element"
+    flat = a.reshape(-1)
+    if mode == "field":
+        repl = np.array(_vals(rng, flat.size, "normal"), dtype=np.float64)
+        same = repl == flat
+        repl[same] = repl[same] * 1.5 + 1.0
+        flat[:] = repl
+    else:
+        i = int(rng.integers(flat.size))
+        if mode == "ulp":
+            nxt = np.nextafter(flat[i], np.inf)
+            if not np.isfinite(nxt):
+                nxt = np.nextafter(flat[i], 0.0)
+            flat[i] = nxt
+        else:
+            v = _vals(rng, 1, "normal")[0]
+            flat[i] = v if v != flat[i] else v * 1.5 + 1.0
+    new[f] = a.tolist() if dim else float(a)
+    return new, "%s:%s" % (mode, f)
+
+
+def _mutate_install(rng, op):
+    """Copy of an install operation whose ADF file differs in exactly ONE printed number."""
+    new = copy.deepcopy(op)
+    kind = op["kind"]
+
+    def bump(lst, fmt):
+        """change one number of a (nested) list so that its printed form changes"""
+        while isinstance(lst[0], list):
+            lst = lst[int(rng.integers(len(lst)))]
+        i = int(rng.integers(len(lst)))
+        if fmt == "f5":
+            lst[i] = round(lst[i] + 0.25, 5)
+        else:
+            lst[i] = float("%.2E" % (lst[i] * 1.5))
+        return i
+
+    if kind.startswith("adf11"):
+        which = _pick(rng, ["log_ne", "log_te", "table", "table"])
+        if which == "table":
+            bump(_pick(rng, new["blocks"])[1], "f5")
+        else:
+            bump(new[which], "f5")
+    elif kind == "adf15":
+        b = _pick(rng, new["blocks"])
+        which = _pick(rng, ["ne", "te", "pec", "pec", "wl"])
+        if which == "wl":
+            wl = round(b["wl"] + 1.5, 1)
+            for x in new["blocks"]:          # one transition, one wavelength (as in genuine files)
+                if (x["upper"], x["lower"]) == (b["upper"], b["lower"]):
+                    x["wl"] = wl
+        else:
+            bump(b[which], "e2")
+    elif kind == "adf12":
+        b = _pick(rng, new["blocks"])
+        which = _pick(rng, ["eb", "qeb", "ti", "qti", "ni", "qni", "z", "qz", "b", "qb", "qref"])
+        if which == "qref":
+            b["qref"] = float("%.2E" % (b["qref"] * 1.5))
+        else:
+            bump(b[which], "e2")
+    else:
+        which = _pick(rng, ["eb", "dt", "sv", "tt", "svt", "svref", "tref", "eref", "dref"])
+        if isinstance(new[which], list):
+            bump(new[which], "e2")
+        else:
+            new[which] = float("%.2E" % (new[which] * 1.5))
+    new["rewrite"] = which
+    new["via_files"] = bool(rng.random() < 0.3)
+    new["download"] = ["none", "fetch", "cached"][int(rng.choice(3, p=[0.5, 0.3, 0.2]))]
+    return new
 
 
 class _Pools:
@@ -487,16 +580,23 @@ def _install_op(rng, pools, big):
             el = _pick(rng, cands)
             q = _ri(rng, 0, SPECIES[el][1] - 2)           # at least two electrons: 'full' header style auto-detected
             hf = None
-        nb = _ri(rng, 1, 6)
+        nb = _ri(rng, 1, 8)
         types = [_pick(rng, ["EXCIT", "RECOM", "CHEXC"]) for _ in range(nb)]
         if rng.random() < 0.5:
             types[:3] = ["EXCIT", "RECOM", "CHEXC"][:nb]
+        if rng.random() < 0.25:
+            types = [_pick(rng, ["EXCIT", "RECOM", "CHEXC"])] * nb      # one type only: many keys of one family per file
+        # genuine files share one (ne, te) grid between blocks
+        shared = None
+        if rng.random() < 0.6:
+            shared = (_ri(rng, 1, 10 if big else 4), _ri(rng, 1, 10 if big else 4))
+            shared_axes = (sorted(e3(8, 15, shared[0])), sorted(e3(-1, 4, shared[1]))) if rng.random() < 0.5 else None
         levels = None
         if style == "full":
             confs = ["1S2 2S2 2P1", "1S2 2S1 2P2", "1S2 2S2 3S1", "1S2 2S2 3P1", "1S2 2S2 3D1", "1S2 2P3"]
             levels = [{"id": i + 1, "conf": confs[i], "mult": str(_pick(rng, [1, 2, 3, 4])), "L": _ri(rng, 0, 4),
                        "J": _pick(rng, ["0.5", "1.5", "2.5", "0.0", "1.0", "4.0"])} for i in range(_ri(rng, 2, 6))]
-        blocks, seen = [], set()
+        blocks, seen, wl_of = [], set(), {}
         for i, t in enumerate(types):
             for _ in range(20):
                 if style == "full":
@@ -510,9 +610,12 @@ def _install_op(rng, pools, big):
             if (t, up, lo) in seen:
                 continue
             seen.add((t, up, lo))
-            nn, nt = _ri(rng, 1, 10 if big else 4), _ri(rng, 1, 10 if big else 4)
-            blocks.append({"isel": len(blocks) + 1, "wl": round(float(rng.uniform(100, 9000)), 1), "type": t, "upper": up,
-                           "lower": lo, "ne": sorted(e3(8, 15, nn)), "te": sorted(e3(-1, 4, nt)),
+            nn, nt = shared if shared else (_ri(rng, 1, 10 if big else 4), _ri(rng, 1, 10 if big else 4))
+            ne_ax, te_ax = (list(shared_axes[0]), list(shared_axes[1])) if (shared and shared_axes) else \
+                (sorted(e3(8, 15, nn)), sorted(e3(-1, 4, nt)))
+            wl_of.setdefault((up, lo), round(float(rng.uniform(100, 9000)), 1))
+            blocks.append({"isel": len(blocks) + 1, "wl": wl_of[(up, lo)], "type": t, "upper": up,
+                           "lower": lo, "ne": ne_ax, "te": te_ax,
                            "pec": [e3(-14, -7, nt) for _ in range(nn)]})
         op.update(species=el, charge=q, style=style, header_format=hf, blocks=blocks, levels=levels)
         return op
@@ -568,11 +671,49 @@ def gen_case(rng, tier):
         fams = list(FAMILIES)
     p_bad = {"invalid": 0.35, "install": 0.05}.get(cls, 0.08)
     p_inst = {"install": 0.45, "mixed": 0.08, "isotopes": 0.05}.get(cls, 0.0)
+    p_rw = {"overwrite": 0.45, "install": 0.25}.get(cls, 0.15)      # overwrite differing in exactly one component
     ops = []
+    hist, inst_hist = [], []       # what valid operations have written so far (generation-time bookkeeping only)
+
+    def remember(item):
+        ck = (item["fam"], canon_key(item["fam"], item["key"]))
+        hist[:] = [h for h in hist if (h["fam"], canon_key(h["fam"], h["key"])) != ck]
+        hist.append(item)
+
     for _ in range(nops):
         r = rng.random()
         if r < p_inst:
-            ops.append(_install_op(rng, pools, big))
+            if inst_hist and rng.random() < 0.4:
+                op = _mutate_install(rng, _pick(rng, inst_hist))
+            else:
+                op = _install_op(rng, pools, big)
+            if op["kind"] != "adf15" or op["blocks"]:
+                inst_hist.append(op)
+            ops.append(op)
+            continue
+        if hist and rng.random() < p_rw:
+            # re-write stored keys with data that differ from the stored ones in exactly one component
+            prev = _pick(rng, hist)
+            fam = prev["fam"]
+            data, what = _mutate_one(rng, FAM[fam][0], prev["data"])
+            item = {"fam": fam, "key": copy.deepcopy(prev["key"]), "data": data}
+            if rng.random() < 0.5:
+                ops.append({"op": "add", "fn": FAM[fam][1], "fam": fam, "key": item["key"], "data": data, "rewrite": what})
+            else:
+                items, seen = [item], {(fam, canon_key(fam, item["key"]))}
+                for h in hist:
+                    if len(items) >= 4 or rng.random() < 0.5 or FAM[h["fam"]][2] != FAM[fam][2]:
+                        continue
+                    ck = (h["fam"], canon_key(h["fam"], h["key"]))
+                    if ck in seen:
+                        continue
+                    seen.add(ck)
+                    d2, _w = _mutate_one(rng, FAM[h["fam"]][0], h["data"])
+                    items.append({"fam": h["fam"], "key": copy.deepcopy(h["key"]), "data": d2})
+                ops.append({"op": "update", "fn": FAM[fam][2], "items": items, "rewrite": what})
+                for it in items[1:]:
+                    remember(it)
+            remember(item)
             continue
         fam = _pick(rng, fams)
         kind = FAM[fam][0]
@@ -598,18 +739,27 @@ def gen_case(rng, tier):
         if rng.random() < 0.5:
             ops.append({"op": "add", "fn": FAM[fam][1], "fam": fam, "key": pools.key(fam),
                         "data": _data(rng, kind, vclass, big)})
+            remember({"fam": fam, "key": ops[-1]["key"], "data": ops[-1]["data"]})
         else:
             ufn = FAM[fam][2]
             items, seen = [], set()
-            for j in range(_ri(rng, 1, 4)):
+            # several keys written by ONE call; part of them share the grid and differ in one component only
+            for j in range(_ri(rng, 1, 4) if rng.random() < 0.8 else _ri(rng, 5, 9)):
                 f2 = fam if j == 0 else _pick(rng, UPD_FAMS[ufn])
                 k2 = pools.key(f2)
                 ck = (f2, canon_key(f2, k2))
                 if ck in seen:
                     continue
                 seen.add(ck)
-                items.append({"fam": f2, "key": k2, "data": _data(rng, FAM[f2][0], vclass, big)})
+                twin = [it for it in items if it["fam"] == f2]
+                if twin and rng.random() < 0.4:
+                    d2 = _mutate_one(rng, FAM[f2][0], _pick(rng, twin)["data"])[0]
+                else:
+                    d2 = _data(rng, FAM[f2][0], vclass, big)
+                items.append({"fam": f2, "key": k2, "data": d2})
             ops.append({"op": "update", "fn": ufn, "items": items})
+            for it in items:
+                remember(it)
     probes = []
     for _ in range(12):
         f = _pick(rng, fams)
@@ -675,6 +825,51 @@ def fixed_cases(tier):
     for mode, via, exists in (("fetch", False, False), ("fetch", True, True), ("cached", False, True), ("cached", True, False)):
         ops2 = [dict(copy.deepcopy(op), download=mode, via_files=via) for op in ops]
         cases.append(jsonable({"cls": "install", "repo_exists": exists, "repo_name": "repository", "ops": ops2, "probes": []}))
+    # overwrites that differ from the stored data in exactly one component, through add_*, update_* and install_*
+    ops = []
+    for fam in ("ionisation", "recombination", "line_power", "continuum_power", "cx_power"):
+        k = {"sp": "neon", "q": 3}
+        ops.append(add(fam, k, t22))
+        ops.append(dict(add(fam, k, dict(t22, ne=[1e12, 1e13])), rewrite="field:ne"))
+        ops.append({"op": "update", "fn": FAM[fam][2], "rewrite": "field:te",
+                    "items": [{"fam": fam, "key": dict(k), "data": dict(copy.deepcopy(t22), ne=[1e12, 1e13], te=[1.5, 15.0])}]})
+        ops.append(dict(add(fam, k, dict(t22, ne=[1e12, 1e13], te=[1.5, 15.0], rate=[[1e-20, 2e-20], [3e-20, 4.000000000000001e-20]])),
+                        rewrite="ulp:rate"))
+    k = {"don": "hydrogen", "dq": 0, "rec": "neon", "rq": 3}
+    ops += [add("thermal_cx", k, t22), dict(add("thermal_cx", k, dict(t22, te=[2.0, 20.0])), rewrite="field:te")]
+    cases.append({"cls": "overwrite", "repo_exists": True, "repo_name": "repository", "ops": copy.deepcopy(ops), "probes": []})
+    ops = []
+    for kind in ("adf11scd", "adf11acd", "adf11ccd", "adf11plt", "adf11prb", "adf11prc"):
+        op = {"op": "install", "kind": kind, "via_files": False, "download": "none", "species": "carbon",
+              "log_ne": [8.0, 9.0, 10.0], "log_te": [0.0, 1.0],
+              "blocks": [[z1, [[-10.0 - z1, -11.0, -12.0], [-10.5, -11.5 - z1, -12.5]]] for z1 in (2, 3, 4)]}
+        if kind == "adf11ccd":
+            op.update(donor="hydrogen", donor_charge=0)
+        ops.append(op)
+        ops.append(dict(copy.deepcopy(op), log_ne=[14.0, 15.0, 16.0], rewrite="log_ne"))
+        ops.append(dict(copy.deepcopy(op), log_ne=[14.0, 15.0, 16.0], log_te=[0.5, 1.5], rewrite="log_te", via_files=True))
+    cases.append({"cls": "install", "repo_exists": True, "repo_name": "repository", "ops": ops, "probes": []})
+    # many keys written by one file: several EXCIT and CHEXC blocks on one shared (ne, te) grid
+    blocks = [{"isel": i + 1, "wl": 1000.0 + 100 * up, "type": t, "upper": up, "lower": 2, "ne": [1e13, 2e13], "te": [1.0, 10.0, 100.0],
+               "pec": [[1e-9 * (i + 1) + 1e-10 * j for j in range(3)], [1e-9 * (i + 1) + 1e-10 * (j + 3) for j in range(3)]]}
+              for i, (t, up) in enumerate([("EXCIT", 3), ("CHEXC", 3), ("CHEXC", 4), ("CHEXC", 5), ("EXCIT", 4), ("RECOM", 3), ("RECOM", 5)])]
+    ops = [{"op": "install", "kind": "adf15", "species": "hydrogen", "charge": 0, "style": "hydrogen", "header_format": None,
+            "blocks": blocks, "levels": None, "via_files": False, "download": "none"},
+           {"op": "install", "kind": "adf15", "species": "carbon", "charge": 5, "style": "hydrogen-like", "header_format": None,
+            "blocks": copy.deepcopy(blocks), "levels": None, "via_files": True, "download": "fetch"}]
+    cases.append({"cls": "install", "repo_exists": False, "repo_name": "repository", "ops": ops, "probes": []})
+    # hostile level spellings: different string forms are different keys
+    ops = []
+    for fam in ("wavelength", "pec_excitation", "pec_recombination"):
+        d = {"wavelength": 656.28} if fam == "wavelength" else t22
+        d2 = {"wavelength": 121.5} if fam == "wavelength" else t12
+        for i, tr in enumerate(([3, 2], ["03", "02"], [2.5, 1.5], ["+3", " 2"], [2, 1], ["3.0", "2.0"])):
+            ops.append(add(fam, {"sp": "carbon", "q": 2, "tr": tr}, d if i % 2 == 0 else d2))
+    ops.append(add("beam_emission", {"beam": "deuterium", "tgt": "carbon", "q": 6, "tr": [3, 2]},
+                   {"e": [1e3], "n": [1e19], "t": [10.0], "sen": [[1e-14]], "st": [1.0], "eref": 1e4, "nref": 1e19, "tref": 100.0, "sref": 1e-14}))
+    ops.append(add("beam_emission", {"beam": "deuterium", "tgt": "carbon", "q": 6, "tr": ["03", "2"]},
+                   {"e": [2e3], "n": [2e19], "t": [20.0], "sen": [[2e-14]], "st": [2.0], "eref": 1e4, "nref": 1e19, "tref": 100.0, "sref": 1e-14}))
+    cases.append({"cls": "transition-alias", "repo_exists": True, "repo_name": "r", "ops": ops, "probes": []})
     # rejected updates in the middle of a history, every invalidity kind on the beam families
     ops = [add("beam_stopping", {"beam": "deuterium", "tgt": "carbon", "q": 6},
                {"e": [1e3, 1e4], "n": [1e19], "t": [10.0, 100.0, 1000.0], "sen": [[1e-14], [2e-14]], "st": [1.0, 2.0, 3.0],
@@ -808,6 +1003,37 @@ def _build_update(ufn, items):
 
 
 _ALIAS_N = [0]
+
+
+def _hostile_spellings(u, l, rot):
+    """Level spellings with a different lower-cased string form than (u, l) that a numeric normalisation would merge."""
+    out = []
+
+    def variants(x):
+        v = []
+        if x.isascii() and x.isdigit() and str(int(x)) == x:
+            v += ["0" + x, " " + x, x + " ", "+" + x, x + ".0", x + ".5", x[0] + "_" + x[1:] if len(x) > 1 else x + "_0"]
+        else:
+            for conv in (int, float):
+                try:
+                    n = conv(x)
+                    if n == n and abs(n) < 1e6:
+                        c = str(int(n))
+                        if c != x:
+                            v.append(c)
+                        break
+                except (ValueError, OverflowError):
+                    pass
+        return v
+
+    vu, vl = variants(u), variants(l)
+    if vu:
+        out.append((vu[rot % len(vu)], l))
+    if vl:
+        out.append((u, vl[(rot // 3) % len(vl)]))
+    if vu and vl:
+        out.append((vu[(rot + 1) % len(vu)], vl[rot % len(vl)]))
+    return [(a.lower(), b.lower()) for a, b in out]
 
 
 def _alias_tr(ctr, mode):
@@ -1052,6 +1278,7 @@ class _History:
     def check_never_written(self, fn, touched):
         ctx = self.ctx
         cand = []
+        hostile = set()
         for fam, ckey in touched:
             for sib in SIBLINGS[fam]:
                 if FAM[sib][0] == FAM[fam][0] or (FAM[sib][0] in ("pec", "wl") and FAM[fam][0] in ("pec", "wl")):
@@ -1077,6 +1304,10 @@ class _History:
                     u, l = x
                     cand.append((fam, ckey[:i] + ((l, u),) + ckey[i + 1:]))
                     cand.append((fam, ckey[:i] + ((u + "x", l),) + ckey[i + 1:]))
+                    # spellings that differ as (lower-cased) strings although they "mean" the same number
+                    for hu, hl in _hostile_spellings(u, l, self.rot):
+                        hostile.add((fam, ckey[:i] + ((hu, hl),) + ckey[i + 1:]))
+                        cand.append((fam, ckey[:i] + ((hu, hl),) + ckey[i + 1:]))
         for p in self.probes:
             cand.append((p["fam"], canon_key(p["fam"], p["key"])))
         seen = set()
@@ -1090,10 +1321,21 @@ class _History:
             elif ckey in self.model[fam]:
                 continue
             self.rot += 1
-            st, got, _ = self.read_key(fam, ckey, alias=self.rot)
+            if (fam, ckey) in hostile:
+                st, got, _ = self.read_key(fam, ckey, alias=2)       # exactly this spelling
+                ctx.mon("hostile_spelling_probe")
+            else:
+                st, got, _ = self.read_key(fam, ckey, alias=self.rot)
             ctx.mon("never_written")
             if st == "missing":
                 continue
+            if st == "ok" and (fam, ckey) in hostile:
+                ctx.viol("%s:distinct-level-strings-collide:%s" % (FAM[fam][3], fam),
+                         "after %s, %s returns data for a transition that was never written and whose levels differ, as lower-cased "
+                         "strings, from every written one (e.g. leading zero / sign / blank / fraction): %r"
+                         % (fn, FAM[fam][3], [x for x in ckey if isinstance(x, tuple)]), family=fam, stored_key=repr(ckey))
+                self.dead = True
+                return False
             if st == "ok":
                 ctx.viol("%s:creates-phantom-key:%s" % (fn, fam),
                          "after %s, %s returns data for a key that was never written (must raise RuntimeError)" % (fn, FAM[fam][3]),
@@ -1427,6 +1669,9 @@ def _run_history(case, ctx, H, repo_path, adas_dir, home):
             ctx.skip("history stopped after its first violation")
             return
         kind_op = op["op"]
+        if op.get("rewrite"):
+            ctx.mon("rewrite_one_component")
+            ctx.mon("rewrite_" + str(op["rewrite"]).split(":")[0])
         if kind_op == "add":
             fam, fn = op["fam"], op["fn"]
             ctx.mon("op_add")
@@ -1560,6 +1805,96 @@ def _run_history(case, ctx, H, repo_path, adas_dir, home):
             raise ValueError("unknown op %r" % kind_op)
 
 
+def _install_blocks(op):
+    """[(family, pairing token, {field: numbers as printed in the file})] for the blocks of one synthetic ADF file.
+    The token pairs a block with the key written for it without using charge / unit conventions:
+    ('tr', canonical transition) or ('rank', position in ascending order)."""
+    kind = op["kind"]
+    out = []
+    if kind.startswith("adf11"):
+        fam = UPD_FAMS[sorted(INSTALL_ROUTES[kind][1])[0]][0]
+        for r, b in enumerate(sorted(op["blocks"], key=lambda b: b[0])):
+            out.append((fam, ("rank", r), {"rate": b[1]}))
+    elif kind == "adf15":
+        lv = {l["id"]: adfw.adf15_level_string(l) for l in (op.get("levels") or [])}
+        for b in op["blocks"]:
+            fam = {"EXCIT": "pec_excitation", "RECOM": "pec_recombination", "CHEXC": "pec_thermal_cx"}[b["type"]]
+            tr = (lv[b["upper"]], lv[b["lower"]]) if op["style"] == "full" else (b["upper"], b["lower"])
+            out.append((fam, ("tr", canon_tr(tr)), {"ne": b["ne"], "te": b["te"], "rate": b["pec"]}))
+            wls = {x["wl"] for x in op["blocks"] if (x["upper"], x["lower"]) == (b["upper"], b["lower"])}
+            if len(wls) == 1:          # which block's wavelength wins for one transition is a parser convention (C08)
+                out.append(("wavelength", ("tr", canon_tr(tr)), {"wavelength": b["wl"]}))
+    elif kind == "adf12":
+        for b in op["blocks"]:
+            d = {f: b[f] for f in ("eb", "qeb", "ti", "qti", "ni", "qni", "z", "qz", "b", "qb")}
+            d["qref"] = b["qref"]
+            out.append(("beam_cx", ("tr", canon_tr((b["upper"], b["lower"]))), d))
+    return out
+
+
+def _install_cross_key(op, ctx, H, fn, written):
+    """Keys written by ONE install call must each carry their own block ("other keys untouched" inside a single write).
+    Judged without unit / charge conventions: every conversion install applies is the same strictly increasing map
+    for all blocks of a file, so for two blocks A, B of one family the element-wise order relation between the sorted
+    numbers of A and of B in the file must be the order relation between the sorted stored numbers of their keys."""
+    blocks = _install_blocks(op)
+    if len(blocks) < 2:
+        return True
+    by_fam = {}
+    for fam, ck, val in written:
+        by_fam.setdefault(fam, []).append(ck)
+    paired = []
+    for fam in {b[0] for b in blocks}:
+        bl = [b for b in blocks if b[0] == fam]
+        keys = by_fam.get(fam, [])
+        if bl[0][1][0] == "rank":
+            if len(keys) != len(bl):
+                ctx.skip("install cross-key check: number of stored keys differs from number of blocks (C08 territory)")
+                continue
+            for b, ck in zip(bl, sorted(keys, key=lambda k: k[-1])):      # last coordinate: (receiver) charge
+                paired.append((fam, b[2], ck))
+        else:
+            seen_tr = set()
+            for b in bl:
+                if b[1][1] in seen_tr:
+                    continue            # the same transition twice in one family (wavelength of EXCIT and RECOM blocks)
+                seen_tr.add(b[1][1])
+                m = [ck for ck in keys if b[1][1] in ck]
+                if len(m) == 1:
+                    paired.append((fam, b[2], m[0]))
+    for i in range(len(paired)):
+        for j in range(i + 1, len(paired)):
+            fa, ina, ka = paired[i]
+            fb, inb, kb = paired[j]
+            if fa != fb:
+                continue
+            va, vb = H.model[fa].get(ka), H.model[fb].get(kb)
+            if va is None or vb is None:
+                continue
+            for f in ina:
+                a_in = np.sort(np.array(ina[f], dtype=np.float64).reshape(-1))
+                b_in = np.sort(np.array(inb[f], dtype=np.float64).reshape(-1))
+                a_out, b_out = np.asarray(va[f]), np.asarray(vb[f])
+                if a_out.ndim == 3:
+                    a_out, b_out = a_out[:, :, 0], b_out[:, :, 0]
+                a_out, b_out = np.sort(a_out.reshape(-1)), np.sort(b_out.reshape(-1))
+                if not (a_in.size == b_in.size == a_out.size == b_out.size):
+                    continue
+                ctx.mon("install_cross_key")
+                if np.any(a_in != b_in):
+                    ctx.mon("install_cross_key_distinct")
+                if np.array_equal(np.sign(a_in - b_in), np.sign(a_out - b_out)):
+                    continue
+                same = bool(np.array_equal(a_out, b_out))
+                ctx.viol("%s:keys-of-one-call-mixed-up:%s:%s" % (fn, fa, f),
+                         "%s stored two keys of one file whose '%s' numbers differ in the file, but the stored arrays are %s: each "
+                         "key must hold the data of its own block" % (fn, f, "identical" if same else "ordered the other way round"),
+                         family=fa, key_a=repr(ka), key_b=repr(kb), field=f)
+                H.dead = True
+                return False
+    return True
+
+
 def _do_install(op, ctx, H, repo_path, adas_dir, home, n_file):
     kind = op["kind"]
     fn = "install_" + kind
@@ -1686,6 +2021,8 @@ def _do_install(op, ctx, H, repo_path, adas_dir, home, n_file):
     if not H.check_written(fn, written, outside and not wrong_path):
         return False
     ctx.mon("install_readback", H.n_readback - n0)
+    if not _install_cross_key(op, ctx, H, fn, written):
+        return False
     excl = {(w[0], w[1]) for w in written}
     if not H.check_others(fn, excl):
         return False
